@@ -12,7 +12,7 @@ insert(0,..), ascending walk) and under `!reversed` back-side ones (last, len-1,
 reverse_inscribed_circles reverses the order AND each circle; InscribedCircle::reversed / reverse_in_place swap the contacts AND
 reverse the ray; every edge-location strategy exported from airfoil::edges implements EdgeLocate and has a `make`.
 OpenIntersectGap::find_edge bounds its step by the min over BOTH ends of the end cap; camber_detect_upper_dir is an arg-max of the chord distance over
-every resampled point, never left early. Round 5: caliper_chord_line measures hull[i] against its cyclic successor for every i (the closing leg included); in advance_search_along_ray the first jump fraction does not exceed the end-test fraction."""
+every resampled point, never left early. Round 5: caliper_chord_line measures hull[i] against its cyclic successor for every i (the closing leg included); in advance_search_along_ray the first jump fraction does not exceed the end-test fraction. Round 6: extract_camber_line extracts both halves (the starting ray and its reversal) on the same section with the same tolerance argument; try_analyze splits an open section at the edge that is NOT open and a closed one at both edge points, leading first."""
 NOT_DECIDED = "inscribedness, monotone stations, recovery of a known medial axis, equivariance, termination of the bisection/refinement/advance loops (numerical progress); accuracy of the bisection (only the UNIT of its stop test is decided)"
 ASSUMPTIONS = []
 
